@@ -112,7 +112,7 @@ def run(rep):
     rep.guard("canary: a tail-recursive variant of quoted_string must be rejected by the termination rule", recursive)
     run_depth_stand_ins(rep)
     rep.not_covered += ["parsers (dependencies)", "frame sizes; recursion whose frames are so small that N items fit in 2 MiB",
-                        "the Turtle / TriG pretty printer in the quick tier (quadratic in dev builds: thorough tier only, N = 3000)"]
+                        "collections and many subjects / graphs through the Turtle / TriG pretty printer in the quick tier (quadratic in dev builds: thorough tier only, N = 3000); the quick tier has the object-list site only"]
     rep.notes.append("six recursion sites under obligation (Verus); the sites neither verifier reaches are bounded native stand-ins: N items on a 2 MiB stack")
 
 
@@ -126,6 +126,7 @@ DEPTH_SITES = [
     ("sparql-union", 100000, ("quick", "thorough"), "DISTINCT, ORDER BY, OFFSET/LIMIT, UNION, ASK over N solutions (sparql/src/exec.rs)"),
     ("jsonld-list", 100000, ("quick", "thorough"), "Engine::mark_list_node, populate_list (jsonld/src/serializer/engine.rs): one rdf:List of N items"),
     ("jsonld-many", 100000, ("quick", "thorough"), "JSON-LD serializer engine over N flat quads in N/10 named graphs"),
+    ("turtle-objects", 100000, ("quick", "thorough"), "Prettifier::write_objects / write_properties (turtle/src/serializer/_pretty.rs): ONE subject with N rdf:type objects and N objects of another predicate"),
     ("turtle-list", 3000, ("thorough",), "Turtle pretty printer (turtle/src/serializer/_pretty.rs): one collection of N items"),
     ("turtle-many", 3000, ("thorough",), "Turtle / TriG pretty printer: N flat statements, N subjects, N/10 named graphs"),
 ]
